@@ -67,6 +67,10 @@ CLAIMED = {
         text="Proof over the real code of cemi/address.go: the four component constructors place each component in its documented bit field and ignore bits outside its width (bit-vector post-conditions and equivalence lemmas, all 2^24 / 2^24 arguments at once); GroupAddr.String and IndividualAddr.String emit three decimal components holding exactly the 5/3/8 resp. 4/4/8 bit fields; NewGroupAddrString / NewIndividualAddrString return nil error IF AND ONLY IF the text has one, two or three separator-delimited components that strconv.Atoi accepts and whose values lie in the documented ranges and are not all zero, return exactly the composed address then and 0 otherwise (loop invariant over the component list, any number of components); lemma: every non-zero address survives String then parse.",
         note="The text layer is an ASSUMED contract, not code in /repo: strings.Split, strconv.Atoi and fmt.Sprintf(\"%d<c>%d<c>%d\") are modelled by uninterpreted functions (components of a string, Atoi accepted/value) with the one axiom that Sprintf's output splits into numerals Atoi maps back to the arguments. Which texts Atoi accepts as a numeral (e.g. a leading '+') is therefore outside the proof. A bounded stand-in executes the real composition over the finite domains the property names (all 65,535 addresses of both kinds, widened component ranges, malformed texts, all constructor arguments).",
         ref="§3 C18"),
+    "C19": dict(
+        text="The registry table is read from the SSA of package dpt's initialiser on every run and shown to be a constant table (one map literal, constant string keys, freshly allocated zero prototypes, never written or passed on outside the initialiser). Ground obligations per entry: key form main.sub with a three-digit sub-number, value type *DPT_<main><sub>, and for every exported DPT_* type in the package scope (go/types) reachability through the table; each failing fact is replayed on the running package. Proof of Produce against its contract, forking over all 174 entries plus the unknown case: ok iff the name is a key; unknown names yield (nil,false); the result has exactly the dynamic type registered under the name, is freshly allocated, differs from the prototype, is all-zero, and nothing that existed before the call is written. ListSupportedTypes returns exactly len(table) names, each a key of the table (loop unrolled over the table; any iteration order). Lemma: two calls never return the same instance.",
+        note="reflect.TypeOf/Type.Elem/reflect.New/Value.Interface are ASSUMED contracts over the verifier's type tags. Uniqueness of keys is enforced by the Go compiler (duplicate constant keys in a map literal do not compile) and re-checked on the SSA. 'Decoding into one instance never changes another' follows from freshness plus the proved write frames 'assigns *d' of all 174 Unpack methods (C08); it is not restated as a separate obligation. Concurrency (schedules): Produce writes only memory it allocates and reads an immutable table, so concurrent calls share reads only; that is an argument, not a discharged obligation - the stand-in runs 16 goroutines under one sampled family of schedules. KNOWN FINDING: key \"14.1200\" has a four-digit sub-number (the genuine KNX identifier), recorded in known_findings.json.",
+        ref="§3 C19"),
     "C20": dict(
         text="Proof for DescribeTunnel and DiscoverOnInterface: at most one request is sent, the socket obtained is closed on every return path after a successful dial, the timeout channel is created once with the caller's timeout and is an alternative of every select, and (Discover) each iteration appends exactly the received *SearchRes, in arrival order, and nothing else.",
         note="Sequential model of the environment (DESIGN §2.4.5): knxnet.Socket, channels, goroutines, mutexes, timers and container/list are environment operations with ghost logs (send log per socket, sent/received count and last value per channel, held flag per mutex, ghost clock); select may take any case, receives may yield any well-typed value or 'closed'; loop-free goroutines are run to completion in place (assumed: eventually scheduled), long-running workers are logged and verified separately. Holds for every sequence of environment choices, NOT for interleavings with other goroutines touching the same state (that is C10), nor for liveness/wall-clock claims. The wall-clock bound itself reduces to the assumed contract of time.After/select. Dial/Listen and NewDescriptionReq/NewSearchReq are assumed (trusted) contracts.",
